@@ -30,6 +30,10 @@ def disagreements(ctx, res):
         if obs[i] != pred[i]:
             a, b = L.parse_fields(obs[i]), L.parse_fields(pred[i])
             fields = {k for k in set(a) | set(b) if a.get(k) != b.get(k)}
+            if "user" in ops[i]:
+                # what a user-defined type reports is its author's business; the allocator statement (C09) is about
+                # std's owned buffers
+                fields.discard("alloc")
             if fields & FIELDS[ctx.prop] or not b:
                 out.append({"line": i, "fields": sorted(fields), "ops": ops[i], "obs": obs[i], "pred": pred[i]})
     return out
